@@ -641,7 +641,7 @@ def run_machine(draws, state, tier):
                     break
 
         # ---- nothing else disappeared ----------------------------------------
-        if op in (0, 1, 2, 3, 6):
+        if op in (0, 1, 2, 3, 4, 6):
             before = gql_names(src.schema)
             gone = set()
             targets = []
